@@ -389,6 +389,31 @@ impl C05 {
         acc.outcome(&format!("implicit-read:{name}"), case);
     }
 
+    fn run_fixed(&self, case: u64, i: usize, acc: &mut Acc) {
+        let (name, src, line, codes, text) = fixed_violations()[i].clone();
+        acc.count("fixed_violation_programs", 1);
+        acc.count("nontrivial", 1);
+        let Ok(run) = imp::analyze_text(&src) else {
+            acc.count("analysis_panicked", 1);
+            return;
+        };
+        acc.count("traces", 1);
+        let loc = crate::loc::Locator::new(&src);
+        let hit = run.diags.iter().any(|d| {
+            codes.contains(&d.code.as_str()) && d.start_line == line && text.map(|t| loc.slice(d.start_raw, d.end_raw) == t).unwrap_or(true)
+        });
+        if !hit {
+            acc.violation(
+                format!("C05|fixed|not-reported-where-it-occurs|{name}"),
+                case,
+                json!({"case": case, "fixed_violation": i, "source": src, "offending_line": line + 1, "expected_codes": codes, "designating": text,
+                       "diagnostics": run.diags.iter().map(|d| (d.code.clone(), d.start_line + 1, loc.slice(d.start_raw, d.end_raw))).collect::<Vec<_>>()}),
+            );
+            return;
+        }
+        acc.outcome(&format!("fixed:{name}"), case);
+    }
+
     /// garbage reads of t0 on the arms of a branch: each one reported on its operand, no
     /// correct read reported
     fn run_two_arm(&self, case: u64, i: u64, acc: &mut Acc) {
@@ -429,7 +454,7 @@ impl C05 {
         }
     }
     fn stride(&self, tier: Tier) -> u64 {
-        tier.pick(17, 2)
+        tier.pick(23, 2)
     }
     fn n_bases(&self, tier: Tier) -> u64 {
         self.space.count().div_ceil(self.stride(tier))
@@ -614,6 +639,19 @@ pub fn implicit_reads() -> Vec<(&'static str, String, usize, Vec<&'static str>)>
     ]
 }
 
+/// one violation in a small fixed program: (name, source, 0-based line of the offending
+/// instruction, accepted codes, the text the diagnostic has to designate if it is an operand)
+pub fn fixed_violations() -> Vec<(&'static str, String, usize, Vec<&'static str>, Option<&'static str>)> {
+    vec![
+        // a never-assigned register that no ecall writes, read behind an ecall
+        ("saved-register-read-in-main-behind-an-ecall", "main:\n    li a0, 1\n    li a7, 1\n    ecall\n    add a0, a0, s5\n    li a7, 1\n    ecall\n    li a7, 10\n    ecall\n".into(), 4, vec!["invalid-use-before-assignment"], Some("s5")),
+        ("thread-pointer-read-in-a-function-behind-an-ecall", "main:\n    li a0, 1\n    jal f\n    li a7, 1\n    ecall\n    li a7, 10\n    ecall\nf:\n    li a7, 5\n    ecall\n    add a0, a0, tp\n    ret\n".into(), 10, vec!["invalid-use-before-assignment"], Some("tp")),
+        // a stretch of unreachable straight-line code: every instruction of it, also behind an ecall
+        ("last-of-a-dead-stretch-behind-the-exit", "main:\n    li a0, 1\n    jal f\n    li a7, 10\n    ecall\n    addi t3, t3, 1\n    addi t3, t3, 2\n    addi t3, t3, 3\nf:\n    addi a0, a0, 1\n    ret\n".into(), 7, vec!["unreachable-code"], None),
+        ("dead-stretch-with-an-ecall-in-it", "main:\n    li a0, 1\n    jal f\n    li a7, 10\n    ecall\nf:\n    addi a0, a0, 1\n    j f_end\n    li a7, 11\n    ecall\n    addi t3, t3, 1\n    addi t3, t3, 2\nf_end:\n    ret\n".into(), 11, vec!["unreachable-code"], None),
+    ]
+}
+
 /// (source, expected: for each arm Some(line of the garbage read) / None, lines of correct reads, code)
 pub fn two_arm(i: u64) -> (String, Vec<usize>, Vec<usize>, &'static str) {
     let ctx = (i % 3) as usize; // 0 = main, 1 = function, 2 = after a call
@@ -676,7 +714,7 @@ impl Property for C05 {
         "C05"
     }
     fn cases(&self, tier: Tier) -> u64 {
-        self.n_bases(tier) * CLASSES.len() as u64 * MAX_SITES + N_TWO_ARM + implicit_reads().len() as u64
+        self.n_bases(tier) * CLASSES.len() as u64 * MAX_SITES + N_TWO_ARM + implicit_reads().len() as u64 + fixed_violations().len() as u64
     }
     fn chunk(&self, _tier: Tier) -> u64 {
         1400
@@ -684,6 +722,11 @@ impl Property for C05 {
     fn run_case(&self, tier: Tier, case: u64, acc: &mut Acc) {
         acc.count("cases", 1);
         let injected = self.n_bases(tier) * CLASSES.len() as u64 * MAX_SITES;
+        let n_implicit = implicit_reads().len() as u64;
+        if case >= injected + N_TWO_ARM + n_implicit {
+            self.run_fixed(case, (case - injected - N_TWO_ARM - n_implicit) as usize, acc);
+            return;
+        }
         if case >= injected + N_TWO_ARM {
             self.run_implicit(case, (case - injected - N_TWO_ARM) as usize, acc);
             return;
@@ -709,6 +752,10 @@ impl Property for C05 {
     }
     fn show(&self, tier: Tier, case: u64) -> String {
         let injected = self.n_bases(tier) * CLASSES.len() as u64 * MAX_SITES;
+        let n_implicit = implicit_reads().len() as u64;
+        if case >= injected + N_TWO_ARM + n_implicit {
+            return fixed_violations()[(case - injected - N_TWO_ARM - n_implicit) as usize].1.clone();
+        }
         if case >= injected + N_TWO_ARM {
             return implicit_reads()[(case - injected - N_TWO_ARM) as usize].1.clone();
         }
@@ -722,6 +769,10 @@ impl Property for C05 {
         }
     }
     fn replay(&self, w: &Value, acc: &mut Acc) {
+        if let Some(i) = w["fixed_violation"].as_u64() {
+            self.run_fixed(w["case"].as_u64().unwrap_or(0), i as usize, acc);
+            return;
+        }
         if let Some(i) = w["implicit_read"].as_u64() {
             self.run_implicit(w["case"].as_u64().unwrap_or(0), i as usize, acc);
             return;
@@ -746,7 +797,7 @@ impl Property for C05 {
     }
     fn info(&self, tier: Tier) -> Info {
         Info {
-            rule: "every 17th / 2nd program of the quick S family x 17 violation classes x up to 10 admissible sites each (function, position, register chosen by the class): the injected program must draw a diagnostic with the class's error code whose raw range is exactly the offending operand or instruction (known by construction); for the dynamic classes (saved register / sp / ra not restored, temporary read after a call, register never assigned) the convention monitor must first observe the violation on an explored execution. Non-trivial = injected programs of every class but the first".into(),
+            rule: "every 23rd / 2nd program of the quick S family x 17 violation classes x up to 10 admissible sites each (function, position, register chosen by the class): the injected program must draw a diagnostic with the class's error code whose raw range is exactly the offending operand or instruction (known by construction); for the dynamic classes (saved register / sp / ra not restored, temporary read after a call, register never assigned) the convention monitor must first observe the violation on an explored execution. Non-trivial = injected programs of every class but the first".into(),
             bounds: json!({"bases": self.n_bases(tier), "classes": CLASSES, "max_sites": MAX_SITES}),
             assumptions: vec!["single injections into clean bases only; an injection whose violation no explored execution shows is counted, not judged".into()],
             states_counter: "injected_programs",
